@@ -8,6 +8,7 @@ CONSTANTS
   TightCap = TRUE
   CopyArgs = TRUE
   HtmlDep = FALSE
+  LazyInit = FALSE
 VIEW View
 INVARIANTS Deterministic SharedReadOnly NoBlocking LockSane
 CHECK_DEADLOCK TRUE
